@@ -13,7 +13,7 @@ WT=$(mktemp -d /tmp/seedwt.XXXXXX); rmdir "$WT"
 git -C /repo worktree add --detach "$WT" HEAD >/dev/null 2>&1 || { echo "cannot create worktree"; exit 2; }
 trap 'git -C /repo worktree remove --force "$WT" >/dev/null 2>&1' EXIT
 if [ -n "$DEMO" ]; then
-  cp "$DEMO" "$WT/$PKG/zz_seed_demo_test.go"
+  mkdir -p "$WT/$PKG"; cp "$DEMO" "$WT/$PKG/zz_seed_demo_test.go"
   (cd "$WT" && go test -count=1 -run "$RUN" "./$PKG/" >/tmp/seed_eval_clean.log 2>&1); CLEAN=$?
 fi
 (cd "$WT" && git apply "$PATCH") || { echo "patch does not apply"; exit 2; }
